@@ -28,6 +28,8 @@ pub enum Case {
     G1Mul { base: String, l: String, scalar: String, tag: String },
     G1GMul { scalar: String, tag: String },
     G1Table { row: usize, digit: usize },
+    /// consecutive G1 / G2 multiplications on one thread over related bases: (group, base k, Z as Fp or Fp2 c0, negate, scalar)
+    MulSeq { steps: Vec<(u8, String, String, bool, String)> },
     /// G2: Z given as Fp2 (c0, c1); (0,0) = infinity
     G2Pair { k1: String, l1: [String; 2], k2: String, l2: [String; 2] },
     G2Unary { k: String, l: [String; 2] },
@@ -501,6 +503,33 @@ pub fn eval(ctx: &Ctx, case: &Case) {
             let s = hb(scalar);
             check!(ctx, "G1 Point::g_mul", tag, cj, ref_g1(&Point::g_mul(&to_limbs(&s))), sm9::g1_mul(&s, &pr.p1), g1_str);
         }
+        Case::MulSeq { steps } => {
+            for (i, (grp, bk, l, negate, sc)) in steps.iter().enumerate() {
+                let (bk, l, s) = (hb(bk), hb(l), hb(sc));
+                let ok = if *grp == 1 {
+                    let (mut pt, mut r) = g1rep(&bk, &l);
+                    if *negate {
+                        pt = pt.point_neg();
+                        r = pr.e1.neg(&r);
+                    }
+                    ctx.call();
+                    matches!(guard(|| ref_g1(&pt.point_mul(&to_limbs(&s)))), Guard::Done(g) if g == sm9::g1_mul(&s, &r))
+                } else {
+                    let (mut pt, mut r) = g2rep(&bk, &(l.clone(), BigUint::zero()));
+                    if *negate {
+                        pt = pt.point_neg();
+                        r = pr.e2.neg(&r);
+                    }
+                    ctx.call();
+                    matches!(guard(|| ref_g2(&pt.point_mul(&to_limbs(&s)))), Guard::Done(g) if g == sm9::g2_mul(&s, &r))
+                };
+                if !ok {
+                    ctx.violation(if *grp == 1 { "G1 Point::point_mul" } else { "G2 TwistPoint::point_mul" }, &format!("wrong-multiple/in-sequence/step{}of{}", i + 1, steps.len()), format!("steps={:?}", steps), cj());
+                    return;
+                }
+            }
+            ctx.outcome("ok/mul-sequence");
+        }
         Case::G1Table { row, digit } => {
             let k = BigUint::from(*digit as u32) << (7 * *row);
             let want = sm9::g1_mul(&k, &pr.p1);
@@ -849,6 +878,23 @@ pub fn run(ctx: &Arc<Ctx>) {
     for (tag, s) in &sc2 {
         cases.push(Case::G2Mul { base: hx(&BigUint::one()), l: s2(&f2().one()), scalar: hx(s), gmul: true, tag: tag.clone() });
         cases.push(Case::G2Mul { base: hx(&js[6]), l: s2(&l2s[3]), scalar: hx(s), gmul: false, tag: tag.clone() });
+    }
+    // multiplication sequences over related bases (B, -B with the same x and z, B re-represented, other point)
+    for grp in [1u8, 2] {
+        let alpha: Vec<(u8, String, String, bool, String)> = {
+            let mut v = Vec::new();
+            for (bk, bl, negate) in [(js[6].clone(), lambdas[3].clone(), false), (js[6].clone(), lambdas[3].clone(), true), (js[6].clone(), lambdas[1].clone(), false), (js[2].clone(), lambdas[3].clone(), false)] {
+                for sc in [BigUint::from(3u32), &n - 2u32] {
+                    v.push((grp, hx(&bk), hx(&bl), negate, hx(&sc)));
+                }
+            }
+            v
+        };
+        for a in &alpha {
+            for b in &alpha {
+                cases.push(Case::MulSeq { steps: vec![a.clone(), b.clone()] });
+            }
+        }
     }
     ctx.note_bound(format!("{} cases", cases.len()));
     ctx.cov("fp12_zero_patterns", json!(4096));
